@@ -372,7 +372,7 @@ Exec(n) ==
                /\ ctrl' = Append(c1, [Frame("call", FN(g).body, n, ne) EXCEPT !.cenv = env, !.tgt = d.tgt, !.form = d.form])
                /\ UNCHANGED <<log, status>> /\ how' = "" /\ rd' = {fc} \cup Range(acs)
                /\ wr' = {base + idx(nm) : nm \in Range(FN(g).params)}
-      [] d.kind = "pass" -> ctrl' = c1 /\ Quiet
+      [] d.kind \in {"pass", "directive"} -> ctrl' = c1 /\ Quiet     \* a loop directive (set_loop_options) has no run-time effect
 
 Step ==
   /\ status[1] = "run" /\ steps < MaxSteps
